@@ -701,6 +701,19 @@ class Condition(ConditionLike):
             data_has_paths=data_has_paths,
         )
 
+    def _get_data_type_name(self, data_type):
+        """Get the spec name of a data type argument. An argument that has no such name
+        (e.g. a type that is not in the lookup table, or the string "int" rather than the
+        type) cannot be represented: written as it is, it would be read back as a
+        different argument, or not at all."""
+        try:
+            return INV_DTYPE_LOOKUP[data_type]
+        except (KeyError, TypeError):
+            raise ValueError(
+                f"Cannot represent the argument {data_type!r} of {self!r} as a data type "
+                f"name; known data types are: {list(INV_DTYPE_LOOKUP)!r}."
+            )
+
     def to_json_like(self, *args, **kwargs):
         # need to return a single-item dict that can be passed to `from_spec` for
         # round-tripping.
@@ -728,9 +741,9 @@ class Condition(ConditionLike):
             if cast_types:
                 if isinstance(spec_val, (list, tuple)):
                     # e.g. `Value.dtype.in_([int, str])`
-                    spec_val = [INV_DTYPE_LOOKUP.get(i, i) for i in spec_val]
+                    spec_val = [self._get_data_type_name(i) for i in spec_val]
                 else:
-                    spec_val = INV_DTYPE_LOOKUP[spec_val]
+                    spec_val = self._get_data_type_name(spec_val)
 
         elif len(func_args["POSITIONAL_OR_KEYWORD"]) > 1 and not any(
             func_args[i] for i in ("VAR_POSITIONAL", "VAR_KEYWORD")
@@ -751,10 +764,7 @@ class Condition(ConditionLike):
             spec_val = copy.deepcopy(list(self.callable.args))
             if cast_types:
                 for idx, val in enumerate(spec_val):
-                    try:
-                        spec_val[idx] = INV_DTYPE_LOOKUP[val]
-                    except KeyError:
-                        continue
+                    spec_val[idx] = self._get_data_type_name(val)
 
         elif len(func_args["VAR_KEYWORD"]) == 1 and not func_args["VAR_POSITIONAL"]:
             # zero or more pos-or-kw args and a var-kw arg, spec val is a dict of kwargs:
